@@ -43,6 +43,11 @@ Definition cone_fuel (c : circuit) : nat := S (size c).
 Definition step_vectors (k : nat) (care : option (list (list bool))) : list (list bool) :=
   match care with Some K => K | None => all_bool_vectors k end.
 
+(* specification side: v is one of the vectors a check compares - a member of the care set,
+   or (care = None) any vector with one Boolean per leaf *)
+Definition compared (k : nat) (care : option (list (list bool))) (v : list bool) : Prop :=
+  match care with Some K => In v K | None => length v = k end.
+
 (* leaves / outs as pairs (label in old, label in new): replace_subcircuit renames the keys
    of inputs_mapping / outputs_mapping to their values *)
 Definition check_vector (old new : circuit) (leaves outs : list (label * label)) (v : list bool) : bool :=
@@ -107,15 +112,32 @@ Definition closedb (c : circuit) (s : list label) : bool :=
                     | None => false
                     end) s.
 
-Definition check_frame (old new : circuit) (leaves outs : list label) : bool :=
-  let r := changed old new in
-  let rint := replaced_internal old new outs in
+(* the gates below the leaves are closed under operands and untouched *)
+Definition frame_below (old new : circuit) (leaves : list label) : bool :=
   let s := closure (closure_fuel old leaves) old leaves [] in
   forallb (fun l => memb l s) leaves
   && closedb old s
-  && forallb (fun l => negb (memb l r)) s
-  && forallb (fun kg : label * gate =>
-                memb (fst kg) r || forallb (fun o => negb (memb o rint)) (gops (snd kg))) (gates old).
+  && forallb (fun l => negb (memb l (changed old new))) s.
+
+(* no untouched gate reads a replaced internal gate *)
+Definition frame_users (old new : circuit) (outs : list label) : bool :=
+  forallb (fun kg : label * gate =>
+             memb (fst kg) (changed old new)
+             || forallb (fun o => negb (memb o (replaced_internal old new outs))) (gops (snd kg)))
+          (gates old).
+
+(* same interface; no circuit output is a replaced internal gate; only gates of the cone
+   between the leaves and the listed outputs were touched (the last condition is not needed
+   for the theorem, it makes the set of gates the theorem is silent about meaningful) *)
+Definition frame_scope (old new : circuit) (leaves outs : list label) : bool :=
+  labels_eqb (inputs old) (inputs new)
+  && labels_eqb (outputs old) (outputs new)
+  && forallb (fun o => negb (memb o (replaced_internal old new outs))) (outputs old)
+  && forallb (fun l => memb l (closure (closure_fuel old outs) old outs leaves))
+             (replaced_internal old new outs).
+
+Definition check_frame (old new : circuit) (leaves outs : list label) : bool :=
+  frame_below old new leaves && frame_users old new outs && frame_scope old new leaves outs.
 
 Definition check_subst (old new : circuit) (leaves outs : list label)
            (care : option (list (list bool))) : bool :=
